@@ -6,8 +6,15 @@ import lib
 def parse_classes(line):
     res = {}
     for part in line.strip().split(" "):
+        if "=" not in part:
+            raise SystemExit("the character classes could not be extracted from the running code: %r" % line[:200])
         k, v = part.split("=", 1)
+        if k == "panics":
+            # predicates that panic on some scalar value: [(class, code point)]
+            res["_panics"] = [(x.split(":")[0], int(x.split(":")[1], 16)) for x in v.split(",") if x]
+            continue
         res[k] = [tuple(int(x, 16) for x in r.split("-")) for r in v.split(",") if r]
+    res.setdefault("_panics", [])
     return res
 
 
